@@ -7,7 +7,6 @@ import hypothesis
 
 from . import common, draws, engine, model as M, sources, walk
 from .common import Failure, Reporter
-from .check_c15 import traced_call, BudgetExceeded
 
 PID = "C16"
 RULE = ("cases = generator parameter sets from the documented domain (as C15; up to 12 hosts quick / 60 thorough) and all shipped "
@@ -162,11 +161,7 @@ def run_source(source, rep, record=True):
         rep.evaluated()
     try:
         try:
-            (h), _ = traced_call(lambda: walk.build_harness(source, {}), budget=20_000_000)
-        except BudgetExceeded:
-            if record:
-                rep.count("generation-did-not-terminate(C15)")
-            return failed
+            h = walk.build_harness(source, {})
         except Failure:
             raise
         except Exception as e:
